@@ -341,6 +341,19 @@ class Check:
         return json.loads(outp.read_text())
 
     # ---- model side --------------------------------------------------------------------------
+    @staticmethod
+    def _drop_compiled(f):
+        """the compiled shard is of no further use (its printed result is what counts): keep the disk small"""
+        for suffix in ('.vo', '.vok', '.vos', '.glob'):
+            try:
+                os.unlink(str(f)[:-2] + suffix)
+            except OSError:
+                pass
+        try:
+            os.unlink(os.path.join(os.path.dirname(str(f)), '.' + os.path.basename(str(f))[:-2] + '.aux'))
+        except OSError:
+            pass
+
     def coq_failing(self, header, cases, check_fn, shard=400, tag='cases', timeout=900):
         """cases: list of Coq terms (strings).  Emits shards `Definition cases := [...]` and lets Coq
         evaluate `failing check_fn cases` with vm_compute.  Returns sorted global failing indices."""
@@ -361,12 +374,13 @@ class Check:
         while pending or running:
             while pending and len(running) < NCPU:
                 k, f = pending.pop(0)
-                p = subprocess.Popen(['timeout', str(timeout), 'coqc', '-Q', str(THEORIES), 'Hpotk',
+                p = subprocess.Popen(['timeout', str(timeout), 'coqc', '-noglob', '-Q', str(THEORIES), 'Hpotk',
                                       '-w', '-notation-overridden', f.name],
                                      cwd=str(self.work), stdout=subprocess.PIPE, stderr=subprocess.PIPE, text=True)
                 running.append((k, f, p))
             k, f, p = running.pop(0)
             out, err = p.communicate()
+            self._drop_compiled(f)
             if p.returncode != 0:
                 errors.append(f'{f.name}: exit {p.returncode}: {(out + err)[-1500:]}')
                 continue
@@ -400,12 +414,13 @@ class Check:
             files.append((k, f))
         procs = []
         for k, f in files:
-            procs.append((k, f, subprocess.Popen(['timeout', str(timeout), 'coqc', '-Q', str(THEORIES), 'Hpotk', '-w', '-notation-overridden', f.name],
+            procs.append((k, f, subprocess.Popen(['timeout', str(timeout), 'coqc', '-noglob', '-Q', str(THEORIES), 'Hpotk', '-w', '-notation-overridden', f.name],
                                                   cwd=str(self.work), stdout=subprocess.PIPE, stderr=subprocess.PIPE, text=True)))
             if len(procs) >= NCPU:
                 pass
         for k, f, p in procs:
             o, e = p.communicate()
+            self._drop_compiled(f)
             if p.returncode != 0:
                 raise ModelFailure(f'{f.name}: exit {p.returncode}: {(o + e)[-1500:]}')
             txt = o[o.index('='):]
